@@ -234,7 +234,8 @@ def split_trace(trace, parts, wd):
     return files, len(lines)
 
 
-REPORT_RE = re.compile(r'<<"REPORT", "([^"]+)", (\d+), (\d+)(?:, (\{[^}]*\}))?>>')
+# TLC pretty-prints long tuples over several lines: match across whitespace/newlines
+REPORT_RE = re.compile(r'<<\s*"REPORT",\s*"([^"]+)",\s*(\d+),\s*(\d+)(?:,\s*(\{[^}]*\}))?\s*>>', re.S)
 
 
 def validate_trace(trace_module, cfg_path, trace, wd, parts=8, timeout=1800):
@@ -260,6 +261,10 @@ def validate_trace(trace_module, cfg_path, trace, wd, parts=8, timeout=1800):
             log(r.out[-3000:])
             raise ToolError("trace validation did not reach the end of %s" % fn)
         accepted += int(m.group(1))
+        found = REPORT_RE.findall(r.out)
+        if len(found) != r.out.count('"REPORT"'):
+            log(r.out[-2000:])
+            raise ToolError("could not parse every REPORT line of the trace validation of %s" % fn)
         for m in REPORT_RE.finditer(r.out):
             inv, scn, line = m.group(1), int(m.group(2)), int(m.group(3))
             sigs = re.findall(r'"([^"]+)"', m.group(4) or "")
